@@ -100,6 +100,9 @@ func milliOf(q string) *big.Int {
 	if err != nil {
 		return big.NewInt(0)
 	}
+	if roundDown {
+		return floorRat(new(big.Rat).Mul(r, big.NewRat(1000, 1)))
+	}
 	return ceilRat(new(big.Rat).Mul(r, big.NewRat(1000, 1)))
 }
 
@@ -108,8 +111,21 @@ func unitsOf(q string) *big.Int {
 	if err != nil {
 		return big.NewInt(0)
 	}
+	if roundDown {
+		return floorRat(r)
+	}
 	return ceilRat(r)
 }
+
+func floorRat(r *big.Rat) *big.Int {
+	q, _ := new(big.Int).DivMod(r.Num(), r.Denom(), new(big.Int))
+	return q
+}
+
+// roundDown selects, for the duration of one computation, the per-quantity floor instead of the ceiling. The
+// property fixes the sums and their units, not where in the sum a sub-unit quantity ("100.5m") is rounded:
+// every rounding scheme lands between the floor-sum and the ceiling-sum, and that interval is what is judged.
+var roundDown bool
 
 func resCPU(rl v1.ResourceList) *big.Int {
 	if q, ok := rl[v1.ResourceCPU]; ok {
@@ -211,6 +227,15 @@ type attempt struct {
 	PutOK    bool
 	Success  bool // as escalator is told
 	Get      *Call
+	Noop     bool // no write: the GET showed the node already in the wanted state
+}
+
+// first is the call to show with a violation about this attempt
+func (at *attempt) first() *Call {
+	if at.Get != nil {
+		return at.Get
+	}
+	return at.Put
 }
 
 type Analysis struct {
@@ -222,6 +247,9 @@ type Analysis struct {
 	N, P, U   int
 	ReqCPU, ReqMem, CapCPU, CapMem *big.Int
 	UCPU, UMem, UMax *big.Rat
+	ReqCPULo, ReqMemLo, CapCPULo, CapMemLo *big.Int // the same totals with every quantity rounded down
+	ULo        *big.Rat // lowest utilisation any rounding scheme can arrive at (UMax is the highest)
+	Fractional bool
 	EqualSize bool
 	SizeCPU, SizeMem *big.Int
 	Kind      string
@@ -235,6 +263,9 @@ type Analysis struct {
 	CleanTaint bool
 	Attempts  []*attempt
 	TaintOK, UntaintOK int
+	LockedStrict bool // locked whichever instant of [At, AtMax] the code armed at (Locked: locked for some such instant)
+	NoopTaint, NoopUntaint bool // a node found already in the wanted state: whether it counts as done by this scan is the code's choice
+	TaintPutOK int            // acknowledged taint writes only
 	TaintAttempted, UntaintAttempted map[string]bool
 	Increase  []*Call // acknowledged-or-not cloud increase calls (set-desired, create-fleet)
 	Requested int64   // amount of capacity requested on top of known desired (acknowledged requests)
@@ -300,6 +331,18 @@ func analyse(gs *GroupScan, g *GroupCfg, rec *ScanRecord) *Analysis {
 			a.PodsOn[p.Spec.NodeName]++
 		}
 	}
+	a.ReqCPULo, a.ReqMemLo, a.CapCPULo, a.CapMemLo = big.NewInt(0), big.NewInt(0), big.NewInt(0), big.NewInt(0)
+	roundDown = true
+	for _, p := range gs.Pods {
+		c, m := podRequest(p)
+		a.ReqCPULo.Add(a.ReqCPULo, c)
+		a.ReqMemLo.Add(a.ReqMemLo, m)
+	}
+	for _, n := range a.Untainted {
+		a.CapCPULo.Add(a.CapCPULo, resCPU(n.Status.Allocatable))
+		a.CapMemLo.Add(a.CapMemLo, resMem(n.Status.Allocatable))
+	}
+	roundDown = false
 	a.EqualSize = true
 	for i, n := range a.Untainted {
 		c, m := resCPU(n.Status.Allocatable), resMem(n.Status.Allocatable)
@@ -311,6 +354,7 @@ func analyse(gs *GroupScan, g *GroupCfg, rec *ScanRecord) *Analysis {
 			a.EqualSize = false
 		}
 	}
+	a.Fractional = a.ReqCPULo.Cmp(a.ReqCPU) != 0 || a.ReqMemLo.Cmp(a.ReqMem) != 0 || a.CapCPULo.Cmp(a.CapCPU) != 0 || a.CapMemLo.Cmp(a.CapMem) != 0
 	if a.Kind == "" {
 		switch {
 		case a.N == 0 && a.P == 0:
@@ -340,15 +384,34 @@ func analyse(gs *GroupScan, g *GroupCfg, rec *ScanRecord) *Analysis {
 		}
 		lo, up, th := big.NewRat(int64(g.Lower), 1), big.NewRat(int64(g.Upper), 1), big.NewRat(int64(g.ScaleUp), 1)
 		u := a.UMax
-		// band membership with the float tolerance of DESIGN 4.3-4: on (or
-		// within 1e-9 of) a threshold both neighbours are acceptable.
-		if u.Cmp(lo) < 0 || near(u, lo) {
+		a.ULo = u
+		if a.Fractional && a.CapCPU.Sign() > 0 && a.CapMem.Sign() > 0 {
+			c := new(big.Rat).SetFrac(new(big.Int).Mul(a.ReqCPULo, big.NewInt(100)), a.CapCPU)
+			m := new(big.Rat).SetFrac(new(big.Int).Mul(a.ReqMemLo, big.NewInt(100)), a.CapMem)
+			a.ULo = c
+			if m.Cmp(c) > 0 {
+				a.ULo = m
+			}
+			if a.CapCPULo.Sign() > 0 && a.CapMemLo.Sign() > 0 {
+				c = new(big.Rat).SetFrac(new(big.Int).Mul(a.ReqCPU, big.NewInt(100)), a.CapCPULo)
+				m = new(big.Rat).SetFrac(new(big.Int).Mul(a.ReqMem, big.NewInt(100)), a.CapMemLo)
+				u = c
+				if m.Cmp(c) > 0 {
+					u = m
+				}
+			}
+		}
+		ul := a.ULo
+		// band membership with the float tolerance of DESIGN 4.3-4: on (or within 1e-9 of) a threshold both
+		// neighbours are acceptable; with sub-unit quantities in the view every band the interval [ul, u]
+		// of possible roundings touches is acceptable.
+		if ul.Cmp(lo) < 0 || near(ul, lo) {
 			a.Bands["fast"] = true
 		}
-		if (u.Cmp(lo) >= 0 || near(u, lo)) && (u.Cmp(up) < 0 || near(u, up)) {
+		if (u.Cmp(lo) >= 0 || near(u, lo)) && (ul.Cmp(up) < 0 || near(ul, up)) {
 			a.Bands["slow"] = true
 		}
-		if (u.Cmp(up) >= 0 || near(u, up)) && (u.Cmp(th) <= 0 || near(u, th)) {
+		if (u.Cmp(up) >= 0 || near(u, up)) && (ul.Cmp(th) <= 0 || near(ul, th)) {
 			a.Bands["dead"] = true
 		}
 		if u.Cmp(th) > 0 || near(u, th) {
@@ -388,14 +451,7 @@ func analyse(gs *GroupScan, g *GroupCfg, rec *ScanRecord) *Analysis {
 		}
 		switch c.Op {
 		case OpGet:
-			cls := a.Class[c.Target]
-			kind := ""
-			switch cls {
-			case clUntainted:
-				kind = "taint"
-			case clTainted:
-				kind = "untaint"
-			}
+			kind := kindOfClass(a.Class[c.Target])
 			if cur == nil || cur.Node != c.Target || cur.GetOK {
 				cur = &attempt{Node: c.Target, Kind: kind}
 				a.Attempts = append(a.Attempts, cur)
@@ -405,6 +461,7 @@ func analyse(gs *GroupScan, g *GroupCfg, rec *ScanRecord) *Analysis {
 			if cur.GetOK && c.GetBody != nil {
 				cur.Present = hasTaintKey(c.GetBody, escTaint)
 			}
+			// lenient record ("was offered"): a read, even a failed one, may be the start of a write that was given up
 			if kind == "taint" {
 				a.TaintAttempted[c.Target] = true
 			} else if kind == "untaint" {
@@ -415,8 +472,18 @@ func analyse(gs *GroupScan, g *GroupCfg, rec *ScanRecord) *Analysis {
 				cur.Put = c
 				cur.PutOK = c.Err == ""
 			} else {
-				cur = &attempt{Node: c.Target, Kind: "orphan-put", Put: c, PutOK: c.Err == ""}
+				// a write prepared without a fresh read (from the cached object): what it is follows from the node's class
+				kind := kindOfClass(a.Class[c.Target])
+				if kind == "" {
+					kind = "orphan-put"
+				}
+				cur = &attempt{Node: c.Target, Kind: kind, Put: c, PutOK: c.Err == "", GetOK: true, Present: kind == "untaint"}
 				a.Attempts = append(a.Attempts, cur)
+			}
+			if cur.Kind == "taint" {
+				a.TaintAttempted[c.Target] = true
+			} else if cur.Kind == "untaint" {
+				a.UntaintAttempted[c.Target] = true
 			}
 		case OpSetDesired, OpCreateFleet:
 			a.Increase = append(a.Increase, c)
@@ -430,20 +497,48 @@ func analyse(gs *GroupScan, g *GroupCfg, rec *ScanRecord) *Analysis {
 			c.Phase = ifs(a.Class[c.Target] == clForce, "force", "grace")
 		}
 	}
+	// A read is not an action. An attempt is kept only if a write was sent or if the read showed the node
+	// already in the wanted state (which the code may report as done); a bare or failed GET stays behind
+	// only in the lenient "was offered" sets above.
+	kept := a.Attempts[:0]
 	for _, at := range a.Attempts {
+		at.Noop = at.Put == nil && at.GetOK && (at.Kind == "taint" && at.Present || at.Kind == "untaint" && !at.Present)
+		if at.Put == nil && !at.Noop {
+			continue
+		}
+		kept = append(kept, at)
+		// success is judged by effect: an acknowledged write that leaves the node in the wanted state
+		wrote := at.PutOK
+		if at.Put != nil && at.Put.NodeBody != nil {
+			has := hasTaintKey(at.Put.NodeBody, escTaint)
+			wrote = at.PutOK && has == (at.Kind == "taint")
+			if st := at.Put.Stored; st != nil && hasTaintKey(st, escTaint) == has && has == (at.Kind == "taint") {
+				at.Noop = true // the write found the node already in the wanted state and left it there
+			}
+		}
 		switch at.Kind {
 		case "taint":
-			at.Success = at.GetOK && (at.Present || at.PutOK)
+			at.Success = wrote || at.Noop && at.Put == nil
 			if at.Success {
 				a.TaintOK++
 			}
+			if wrote && !at.Noop {
+				a.TaintPutOK++
+			}
+			if at.Noop {
+				a.NoopTaint = true
+			}
 		case "untaint":
-			at.Success = at.GetOK && (!at.Present || at.PutOK)
+			at.Success = wrote || at.Noop && at.Put == nil
 			if at.Success {
 				a.UntaintOK++
 			}
+			if at.Noop {
+				a.NoopUntaint = true
+			}
 		}
 	}
+	a.Attempts = kept
 	// requested capacity (acknowledged increases)
 	for _, c := range a.Increase {
 		switch c.Op {
@@ -497,8 +592,8 @@ func analyse(gs *GroupScan, g *GroupCfg, rec *ScanRecord) *Analysis {
 			}
 		}
 	}
-	a.CleanTaint = !preFaulted && a.Kind != kListErr && !rec.Outcome.EndsLifetime() && taintPhaseOK
-	a.CleanUp = !preFaulted && a.Kind != kListErr && !rec.Outcome.EndsLifetime() && incAcked && attachOK && !neverReadyInScan(gs)
+	a.CleanTaint = !preFaulted && a.Kind != kListErr && !rec.Outcome.EndsLifetime() && taintPhaseOK && !a.NoopTaint
+	a.CleanUp = !preFaulted && a.Kind != kListErr && !rec.Outcome.EndsLifetime() && incAcked && attachOK && !neverReadyInScan(gs) && !a.NoopUntaint
 	a.StateHash = a.hash(gs, g)
 	return a
 }
@@ -550,7 +645,8 @@ func clampInt(x, hi int) int {
 
 type lockModel struct {
 	Armed   bool
-	At      time.Time
+	At      time.Time // the cloud accepted the request
+	AtMax   time.Time // the group's turn in that scan ended: the code armed its lock somewhere in [At, AtMax]
 	Amount  int64
 }
 
@@ -574,4 +670,15 @@ func (m *sizeMemory) observe(nodes []*v1.Node) {
 			m.Mixed = true
 		}
 	}
+}
+
+
+func kindOfClass(cls string) string {
+	switch cls {
+	case clUntainted:
+		return "taint"
+	case clTainted:
+		return "untaint"
+	}
+	return ""
 }
